@@ -264,8 +264,36 @@ class Segment(Task):
 
     def evaluate(self, inp, **kw):
         kw.setdefault("frame_size", float(F(self.frame)))
-        return mir_eval.segment.evaluate(iarr(inp["ref"][0]), list(inp["ref"][1]),
-                                         iarr(inp["est"][0]), list(inp["est"][1]), **kw)
+        ri, rl, ei, el = iarr(inp["ref"][0]), list(inp["ref"][1]), iarr(inp["est"][0]), list(inp["est"][1])
+        if inp.get("direct") and len(ri) and len(ei) and ri[0, 0] == ei[0, 0] == 0 and ri[-1, 1] == ei[-1, 1]:
+            return self._direct(ri, rl, ei, el, **kw)
+        return mir_eval.segment.evaluate(ri, rl, ei, el, **kw)
+
+    def _direct(self, ri, rl, ei, el, **kw):
+        """the entries of evaluate() obtained by calling the public metric functions one by one on the SAME annotation
+        objects (admissible without pre-processing: both sides start at 0 and end together), as a caller would who wants
+        a few of the scores only"""
+        import inspect
+        S_ = mir_eval.segment
+
+        def fk(fn, *a, **k):
+            real = getattr(fn, "_real", fn)
+            ok = inspect.signature(real).parameters
+            return fn(*a, **{n: v for n, v in k.items() if n in ok})
+        out = {}
+        kw3 = dict(kw, window=0.5)
+        out["Precision@0.5"], out["Recall@0.5"], out["F-measure@0.5"] = fk(S_.detection, ri, ei, **kw3)
+        kw3["window"] = 3.0
+        out["Precision@3.0"], out["Recall@3.0"], out["F-measure@3.0"] = fk(S_.detection, ri, ei, **kw3)
+        out["Ref-to-est deviation"], out["Est-to-ref deviation"] = fk(S_.deviation, ri, ei, **kw)
+        (out["Pairwise Precision"], out["Pairwise Recall"], out["Pairwise F-measure"]) = fk(S_.pairwise, ri, rl, ei, el, **kw)
+        out["Rand Index"] = fk(S_.rand_index, ri, rl, ei, el, **kw)
+        out["Adjusted Rand Index"] = fk(S_.ari, ri, rl, ei, el, **kw)
+        (out["Mutual Information"], out["Adjusted Mutual Information"],
+         out["Normalized Mutual Information"]) = fk(S_.mutual_information, ri, rl, ei, el, **kw)
+        out["NCE Over"], out["NCE Under"], out["NCE F-measure"] = fk(S_.nce, ri, rl, ei, el, **kw)
+        out["V Precision"], out["V Recall"], out["V-measure"] = fk(S_.vmeasure, ri, rl, ei, el, **kw)
+        return out
 
     def relabel(self, inp, rng):
         out = {}
